@@ -153,10 +153,12 @@ pub fn codec_int_value(v: u64, slot: u64, thorough: bool) -> u64 {
         4 => 2 * v,
         5 => 100,
         6 => 1 << 16,
-        // quick: 1000 (a 2^31-1 output size makes the bit-pack decoder run for 15+ s: thorough only)
+        // quick: 1000; thorough: 2^24. (A declared output size of 2^31-1 makes the bit-pack decoder fill 2 GiB
+        // for 15+ s: finite output-size amplification bounded by the 32-bit size field, which the statement
+        // does not forbid and the hang rule would misreport, so that value is not used.)
         _ => {
             if thorough {
-                (1 << 31) - 1
+                1 << 24
             } else {
                 1000
             }
@@ -353,6 +355,18 @@ pub fn valid_streams(thorough: bool) -> Vec<ValidStream> {
         }
         push(Codec::Gzip(n), format!("gzip of {name}"), Ok(Ok(mutate::gzip(src))));
         push(Codec::Lzma(n), format!("lzma of {name}"), vmc::catch(|| cv::lzma_encode(6, src)));
+    }
+    // run-rich inputs for the RLE transforms (the first two inputs have no runs: their RLE metadata is empty)
+    if !thorough {
+        for (name, src) in inputs.iter().skip(2).take(2) {
+            let n = src.len();
+            for bits in [0x40u8, 0x60] {
+                let fl = cv::RansNx16Flags::from_bits_truncate(bits);
+                push(Codec::RansNx16(n), format!("flags {bits:#04x} of {name}"), vmc::catch(|| cv::rans_nx16_encode(fl, src)));
+            }
+            let fl = cv::AacFlags::from_bits_truncate(0x40);
+            push(Codec::Aac(n), format!("flags 0x40 of {name}"), vmc::catch(|| cv::aac_encode(fl, src)));
+        }
     }
     let name_sets: &[&[u8]] = if thorough { &[&b"r1\0r2\0r3\0"[..], &b"read.1:100\0read.1:101\0read.2:7\0"[..], &b"a\0"[..]] } else { &[&b"r1\0r2\0r3\0"[..]] };
     for names in name_sets.iter().copied() {
